@@ -115,13 +115,18 @@ def sh(cmd, cwd=None, timeout=None, env=None):
 
 
 # --------------------------------------------------------------------------- translators
-def regenerate():
-    """Run every translator; returns list of error strings (empty = ok)."""
+def regenerate(translators=None):
+    """Run the named translators (default: every committed xlate_*.py); returns list of error
+    strings (empty = ok)."""
     errs = []
     os.makedirs(os.path.join(COQ, "Generated"), exist_ok=True)
     tdir = os.path.join(VERIF, "tools")
-    for name in sorted(os.listdir(tdir)):
-        if name.startswith("xlate_") and name.endswith(".py"):
+    names = sorted(n for n in os.listdir(tdir) if re.fullmatch(r"xlate_[a-z0-9]+\.py", n))
+    if translators is not None:
+        names = [n for n in names if n in translators]
+    with Lock("xlate"):
+      for name in names:
+        if True:
             rc, out = sh([sys.executable, os.path.join(tdir, name)], timeout=300)
             if rc != 0:
                 errs.append("%s: %s" % (name, out.strip()[-2000:]))
@@ -477,10 +482,10 @@ GENERIC_TRUSTED = [
 ]
 
 
-def proof_stage(rep, prop_file, extra_targets=(), allowed_axioms=()):
+def proof_stage(rep, prop_file, extra_targets=(), allowed_axioms=(), translators=("xlate_consts.py",)):
     """Regenerate, scan, build Props/<id>.vo (forced), check Print Assumptions.
     Fills the proof part of the evidence; returns True when every obligation is discharged."""
-    errs = regenerate()
+    errs = regenerate(translators)
     names = props_obligations(prop_file)
     thms = theorem_names(prop_file)
     rep.coverage["obligations"] = len(names)
